@@ -179,6 +179,10 @@ class AsmPlan(Plan):
                 g = find(impl, b)
                 if e is not None and len(e) > 1 and (g is None or g[1:] != e[1:]):
                     return what + '-not-captured'
+            e = find(spec, 67)
+            g = find(impl, 74)
+            if e is not None and (g is None or g[1:] != e[1:]):
+                return 'strategy-not-captured'
         return None
 
     def pretty(self, ints):
